@@ -446,6 +446,9 @@ class TreeMapView(Mapping[TreeMapKey, LeafValueT]):
     # Empty Path means replacing the root directly with value at the callsite.
     if key_path == Key() or _is_key(key_path[0], _SELF):
       return value
+    # SKIP ignores the value, also when there is no tree to insert into yet.
+    if _is_key(key_path[0], _SKIP):
+      return tree
 
     # Not a mutable container, constructs the mutable counterpart first.
     container_maker = None
